@@ -46,12 +46,26 @@ class BoomStop(StopIteration):
     pass
 
 
-BOOMS = dict(exception=Boom, base=BoomBase, attr=BoomAttr, type=BoomType, key=BoomKey, stop=BoomStop)
-ALL_BOOMS = tuple(BOOMS.values())
+class BoomBare(Exception):
+    """Raised without any argument (a bare ``raise NotImplementedError`` / ``assert``): ``args == ()``."""
+
+
+BOOMS = dict(exception=Boom, base=BoomBase, attr=BoomAttr, type=BoomType, key=BoomKey, stop=BoomStop, bare=lambda site: BoomBare())
+ALL_BOOMS = (Boom, BoomBase, BoomAttr, BoomType, BoomKey, BoomStop, BoomBare)
 
 
 class Shared:
     """A robot object injected into the later-declared components."""
+
+
+class _NoTarget:
+    """A module-level sentinel compared by identity (a legal will_reset_to default)."""
+
+    def __repr__(self):
+        return "<NO_TARGET>"
+
+
+NO_TARGET = _NoTarget()
 
 
 class Log:
@@ -374,6 +388,7 @@ def build_robot(layout, H, opts):
     class CompB1:
         NAME = "c2"
         y = will_reset_to("dflt")
+        target = will_reset_to(NO_TARGET)
         shared: Shared
 
         def __init__(self):
